@@ -9,6 +9,7 @@ import (
 	"crypto/sha256"
 	"crypto/sha512"
 	"fmt"
+	"github.com/ipld/go-ipld-prime/codec"
 
 	"github.com/ipfs/go-cid"
 	_ "github.com/ipld/go-ipld-prime/codec/cbor"
@@ -126,8 +127,19 @@ func DigestOK(cidBytes string, b []byte) (bool, error) {
 
 // PrivateRegistry maps the five codecs plus dag-pb (0x70, as an alias of dag-cbor, so that
 // CIDv0 prototypes can be exercised).
-func PrivateRegistry() multicodec.Registry {
+func PrivateRegistry() multicodec.Registry { return PrivateRegistryFilled(0) }
+
+// PrivateRegistryFilled fills the registry in one of the orders a program may use: 0 = encoder then decoder,
+// codec by codec; 1 = every decoder, then every encoder; 2 = every encoder, then every decoder; 3 = decoder then
+// encoder, codec by codec. What is registered is the same in every case.
+func PrivateRegistryFilled(order int) multicodec.Registry {
 	var r multicodec.Registry
+	type reg struct {
+		c uint64
+		e codec.Encoder
+		d codec.Decoder
+	}
+	var regs []reg
 	for _, c := range Codecs {
 		e, err := multicodec.LookupEncoder(c)
 		if err != nil {
@@ -137,20 +149,47 @@ func PrivateRegistry() multicodec.Registry {
 		if err != nil {
 			panic(err)
 		}
-		r.RegisterEncoder(c, e)
-		r.RegisterDecoder(c, d)
+		regs = append(regs, reg{c, e, d})
 	}
-	r.RegisterEncoder(CodecDagPb, dagcbor.Encode)
-	r.RegisterDecoder(CodecDagPb, dagcbor.Decode)
+	regs = append(regs, reg{CodecDagPb, dagcbor.Encode, dagcbor.Decode})
+	switch order % 4 {
+	case 1:
+		for _, x := range regs {
+			r.RegisterDecoder(x.c, x.d)
+		}
+		for _, x := range regs {
+			r.RegisterEncoder(x.c, x.e)
+		}
+	case 2:
+		for _, x := range regs {
+			r.RegisterEncoder(x.c, x.e)
+		}
+		for _, x := range regs {
+			r.RegisterDecoder(x.c, x.d)
+		}
+	case 3:
+		for _, x := range regs {
+			r.RegisterDecoder(x.c, x.d)
+			r.RegisterEncoder(x.c, x.e)
+		}
+	default:
+		for _, x := range regs {
+			r.RegisterEncoder(x.c, x.e)
+			r.RegisterDecoder(x.c, x.d)
+		}
+	}
 	return r
 }
 
 var _ = dagjson.Encode
 
 // LinkSystem returns a link system using the default or the private registry.
-func LinkSystem(private bool) linking.LinkSystem {
+func LinkSystem(private bool) linking.LinkSystem { return LinkSystemFilled(private, 0) }
+
+// LinkSystemFilled: as LinkSystem, the private registry filled in the given order.
+func LinkSystemFilled(private bool, order int) linking.LinkSystem {
 	if private {
-		return cidlink.LinkSystemUsingMulticodecRegistry(PrivateRegistry())
+		return cidlink.LinkSystemUsingMulticodecRegistry(PrivateRegistryFilled(order))
 	}
 	return cidlink.DefaultLinkSystem()
 }
